@@ -353,6 +353,11 @@ def run(ctx):
                         got = kind_of(auto_with_availability(pym, As, avail, ov))
                     except AssertionError:
                         got = 'KAssertionError'
+                    except Exception as e:
+                        ctx.evaluations += 1
+                        ctx.violation('impl-violates', 'auto_determine_solver', 'returns a solver for every non-singular square matrix',
+                                      f'{cls} matrix', dict(A=A.tolist().__repr__(), storage=stor, overrides=ov, avail=avail, error=repr(e)))
+                        continue
                     auto_checks.append(f'kind_eqb ({coq_auto(flags, avail, ov)}) {got}')
                     auto_labels.append(dict(A=A.tolist().__repr__(), storage=stor, overrides=ov, avail=avail, got=got))
                     ctx.case(('auto', name, stor, tuple(sorted(ov.items())), avail), n >= 2)
